@@ -21,6 +21,7 @@ HARNESSES = {
     "c13": [("w_c13", None)],
     "c16": [("w_c16", None)],
     "c08": [("w_c08", ["check_fill_queue", "check_parallel_add_cms_w1", "check_parallel_add_cms_w2", "check_parallel_add_cms_w3", "check_parallel_add_cms_w4", "check_parallel_add_all", "check_parallel_add_all_w45", "check_parallel_merging", "check_items_generator"])],
+    "c04": [("w_c13", None)],
     "c19": [("w_c08", ["check_c19_callback_raises_w1", "check_c19_callback_raises_w2", "check_c19_dead_worker"])],
     "c01": [("w_c12", ["check_add_value_linear", "check_update_dict_linear", "check_update_list_linear", "check_ngram_linear"])],
     "c05": [("w_c12", ["check_add_value_linear", "check_add_value_log16", "check_add_value_log8"])],
